@@ -287,3 +287,111 @@ def r6(ctx, R):
                 ok = {'p_in', 'p_out'} <= kws or len(c.args) >= 2 or any(k.arg is None for k in c.keywords)
                 R.check(ok, f'{(ci.name + ".") if ci else ""}{f.name} :: a nested conversion names both bases', qual(m, ci, f), 'get_basis_change_matrix(p_in=.., p_out=..)', ast.unparse(c))
     R.ok(f'{SH} :: nested conversions inside functions that take both bases', SH, found=f'{n} call(s)')
+
+
+def _cached_functions(repo):
+    """names of functions that carry a caching decorator (the module's own @cache, functools.cache / lru_cache, cached_property)"""
+    out = {}
+    for m in repo.modules.values():
+        if not repo.is_library(m):
+            continue
+        for node in ast.walk(m.tree):
+            if isinstance(node, (ast.FunctionDef, ast.AsyncFunctionDef)):
+                for d in node.decorator_list:
+                    dn = ast.unparse(d.func if isinstance(d, ast.Call) else d).split('.')[-1]
+                    if dn in ('cache', 'lru_cache', 'cached_property'):
+                        out.setdefault(node.name, []).append(m.relpath)
+    return out
+
+
+def _mutated_cached_results(fn, cached):
+    """in-place changes, inside fn, of a value that came out of a cached function"""
+    names = {}
+    hits = []
+
+    def is_cached_call(e):
+        return isinstance(e, ast.Call) and isinstance(e.func, (ast.Attribute, ast.Name)) and (e.func.attr if isinstance(e.func, ast.Attribute) else e.func.id) in cached
+
+    for s in walk_no_nested(fn):
+        if isinstance(s, ast.Assign) and len(s.targets) == 1 and isinstance(s.targets[0], ast.Name) and is_cached_call(s.value):
+            names[s.targets[0].id] = s.lineno
+    for s in walk_no_nested(fn):
+        tg = s.targets if isinstance(s, ast.Assign) else [s.target] if isinstance(s, ast.AugAssign) else []
+        for t in tg:
+            b = t
+            sub = False
+            while isinstance(b, ast.Subscript):
+                b = b.value
+                sub = True
+            if isinstance(b, ast.Name) and b.id in names and s.lineno > names[b.id] and (sub or isinstance(s, ast.AugAssign)):
+                hits.append(f'line {s.lineno}: {ast.unparse(s)[:70]}')
+            if is_cached_call(b) and sub:
+                hits.append(f'line {s.lineno}: {ast.unparse(s)[:70]}')
+        if isinstance(s, ast.Expr) and isinstance(s.value, ast.Call) and isinstance(s.value.func, ast.Attribute) and s.value.func.attr in ('sort', 'resize', 'fill', 'put', 'append', 'extend', 'setdiag'):
+            b = s.value.func.value
+            if isinstance(b, ast.Name) and b.id in names:
+                hits.append(f'line {s.lineno}: {ast.unparse(s)[:70]}')
+    return hits
+
+
+_CONTROL_CACHED = "def g(self):\n    D = self._stencil()\n    D[0, :] /= 2\n    return D\n"
+
+
+@rule('C17', 'C17.R7', 'what a cached function returns is shared by all later callers: no function changes such a value in place (a matrix taken from the cache, scaled in place and handed out is different at the second call)', floor=4)
+def r7(ctx, R):
+    repo = ctx.repo
+    if len(_mutated_cached_results(ast.parse(_CONTROL_CACHED).body[0], {'_stencil'})) != 1:
+        raise AnalysisError('C17.R7 positive control not detected')
+    cached = _cached_functions(repo)
+    if not {'get_conv', 'get_norm'} <= set(cached):
+        raise AnalysisError(f'C17.R7: the confirmed cached functions (get_conv, get_norm) not found: {sorted(cached)}')
+    n = 0
+    for m, ci, fn in repo.all_functions():
+        if m.relpath not in {r for rs in cached.values() for r in rs}:
+            continue
+        calls = [c for c in ast.walk(fn) if isinstance(c, ast.Call) and isinstance(c.func, (ast.Attribute, ast.Name)) and (c.func.attr if isinstance(c.func, ast.Attribute) else c.func.id) in cached]
+        if not calls:
+            continue
+        n += 1
+        w = qual(m, ci, fn)
+        R.fn(w)
+        hits = _mutated_cached_results(fn, cached)
+        R.check(not hits, f'{(ci.name + ".") if ci else ""}{fn.name} :: values obtained from cached functions ({", ".join(sorted({(c.func.attr if isinstance(c.func, ast.Attribute) else c.func.id) for c in calls}))}) are not changed in place', w, 'read-only use (or a copy first)', hits)
+    if n < 4:
+        raise AnalysisError(f'C17.R7: only {n} callers of cached functions found')
+
+
+@rule('C17', 'C17.R8', 'boundary rows are requested in REFERENCE coordinates end to end: the 1-d get_BC dispatchers hand their keyword arguments to the row builders unchanged (no rewriting of kwargs on the way - a translation table keyed by the physical end points collides with reference coordinates on intervals such as [1, 3] or [0, 1])', floor=1)
+def r8(ctx, R):
+    repo = ctx.repo
+    n = 0
+    for m, ci, fn in repo.all_functions():
+        if m.relpath != SH or fn.name != 'get_BC' or ci is None or fn.args.kwarg is None:
+            continue
+        if ci.name == 'SpectralHelper':
+            continue  # the n-d wrapper (C17.R5)
+        kw = fn.args.kwarg.arg
+        n += 1
+        w = qual(m, ci, fn)
+        R.fn(w)
+        stores = []
+        for s in walk_no_nested(fn):
+            tg = s.targets if isinstance(s, ast.Assign) else [s.target] if isinstance(s, (ast.AugAssign, ast.AnnAssign)) else []
+            for t in tg:
+                b = t
+                while isinstance(b, ast.Subscript):
+                    b = b.value
+                if isinstance(b, ast.Name) and b.id == kw:
+                    stores.append(f'line {s.lineno}: {ast.unparse(s)[:80]}')
+            if isinstance(s, ast.Expr) and isinstance(s.value, ast.Call) and isinstance(s.value.func, ast.Attribute) and isinstance(s.value.func.value, ast.Name) and s.value.func.value.id == kw and s.value.func.attr in ('update', 'pop', 'setdefault', 'clear'):
+                stores.append(f'line {s.lineno}: {ast.unparse(s)[:80]}')
+        fwd = [c for c in ast.walk(fn) if isinstance(c, ast.Call) and any(k.arg is None and ast.unparse(k.value) == kw for k in c.keywords)]
+        R.check(not stores and bool(fwd), f'{ci.name}.get_BC :: **{kw} reaches the row builders unchanged', w, f'return self.get_<kind>_BC_row(**{kw}) with no assignment to {kw}', stores or 'kwargs not forwarded')
+    if n < 1:
+        raise AnalysisError('C17.R8: ChebychevHelper.get_BC(kind, **kwargs) not found')
+
+
+@rule('C17', 'C17.R9', 'cached transforms / plans of the spectral helpers are keyed by everything they are built from (direction, axes, padding, shape)', floor=8)
+def r9(ctx, R):
+    from .. import memo
+    memo.check(ctx, R, lambda m: m.relpath == SH, 'helpers/spectral_helper.py')
